@@ -69,20 +69,59 @@ func Text(max int) *rapid.Generator[[]byte] {
 			n = rapid.IntRange(0, max).Draw(t, "len")
 		}
 		if n <= 32 {
-			if rapid.Bool().Draw(t, "ascii") {
+			switch rapid.IntRange(0, 7).Draw(t, "textclass") {
+			case 0, 1, 2:
 				return rapid.SliceOfN(rapid.ByteRange(0x20, 0x7e), n, n).Draw(t, "text")
+			case 3:
+				// what real traffic carries: subscriber numbers (with +86 / 86 / 00 prefixes), short codes, service ids
+				v := []byte(rapid.SampledFrom(realistic).Draw(t, "realistic"))
+				if len(v) > max {
+					v = v[:max]
+				}
+				return v
+			case 4:
+				// decimal digits only / leading or trailing blanks
+				b := rapid.SliceOfN(rapid.ByteRange('0', '9'), n, n).Draw(t, "digits")
+				if n > 0 && rapid.Bool().Draw(t, "blank") {
+					if rapid.Bool().Draw(t, "lead") {
+						b[0] = ' '
+					} else {
+						b[n-1] = ' '
+					}
+				}
+				return b
+			default:
+				return rapid.SliceOfN(rapid.ByteRange(1, 255), n, n).Draw(t, "text")
 			}
-			return rapid.SliceOfN(rapid.ByteRange(1, 255), n, n).Draw(t, "text")
 		}
 		return fillBytes(rapid.Uint64().Draw(t, "textseed"), n, 1)
 	})
 }
+
+var realistic = []string{"+8613800138000", "8613800138000", "008613800138000", "13800138000", "10086", "1065712345678", "+86", "86", "+", "+8", "HELP", "MSC00001", "DELIVRD", "id:1 stat:OK", "0000000000", "00", "99", " 10086", "10086 ", "a b", "submit", "done date"}
 
 // Binary draws exactly n octets over all byte values, with 0x00 steered to the
 // first, last or an interior position in a good share of the cases.
 func Binary(n int) *rapid.Generator[[]byte] {
 	return rapid.Custom(func(t *rapid.T) []byte {
 		b := rapid.SliceOfN(rapid.Byte(), n, n).Draw(t, "bin")
+		switch rapid.IntRange(0, 9).Draw(t, "binclass") {
+		case 0: // octets that read as decimal text (BCD-looking ids, numeric digests)
+			for i := range b {
+				b[i] = '0' + b[i]%10
+			}
+			return b
+		case 1: // octets that read as hexadecimal text
+			for i := range b {
+				b[i] = "0123456789abcdefABCDEF"[int(b[i])%22]
+			}
+			return b
+		case 2: // one value repeated
+			for i := range b {
+				b[i] = b[0]
+			}
+			return b
+		}
 		switch rapid.IntRange(0, 5).Draw(t, "nulpos") {
 		case 0:
 			b[0] = 0
@@ -97,10 +136,33 @@ func Binary(n int) *rapid.Generator[[]byte] {
 
 // BodyBytes draws n octets over all byte values.
 func BodyBytes(t *rapid.T, n int, label string) []byte {
+	var b []byte
 	if n <= 24 {
-		return rapid.SliceOfN(rapid.Byte(), n, n).Draw(t, label)
+		b = rapid.SliceOfN(rapid.Byte(), n, n).Draw(t, label)
+	} else {
+		b = fillBytes(rapid.Uint64().Draw(t, label+"seed"), n, 0)
 	}
-	return fillBytes(rapid.Uint64().Draw(t, label+"seed"), n, 0)
+	// message bodies are not arbitrary in practice: they begin with a concatenation header, hold a delivery
+	// receipt, or plain text - the shapes code is most likely to look at
+	switch rapid.IntRange(0, 11).Draw(t, label+"shape") {
+	case 0:
+		if n >= 6 {
+			total := byte(rapid.IntRange(2, 5).Draw(t, label+"udhtotal"))
+			copy(b, []byte{5, 0, 3, b[3], total, 1 + b[5]%total})
+		}
+	case 1:
+		if n >= 7 {
+			total := byte(rapid.IntRange(2, 5).Draw(t, label+"udhtotal7"))
+			copy(b, []byte{6, 8, 4, b[3], b[4], total, 1 + b[6]%total})
+		}
+	case 2:
+		copy(b, "id:0123456789 sub:001 dlvrd:001 submit date:2401011200 done date:2401011201 stat:DELIVRD err:000 text:hello")
+	case 3:
+		for i := range b {
+			b[i] = 0x20 + b[i]%0x5f
+		}
+	}
+	return b
 }
 
 // counts and lengths are drawn through OneOf so that a failing case shrinks
@@ -147,6 +209,11 @@ func DrawTriplets(t *rapid.T, o Opts, label string) []ref.Triplet {
 		n = 0
 	case 2:
 		n = 1
+	case 3:
+		n = rapid.IntRange(2, 8).Draw(t, label+"n")
+		if rapid.IntRange(0, 9).Draw(t, label+"many") == 0 {
+			n = rapid.IntRange(33, 120).Draw(t, label+"nmany") // more parameters than any specification defines tags for
+		}
 	default:
 		n = rapid.IntRange(2, 8).Draw(t, label+"n")
 	}
@@ -248,7 +315,7 @@ func DrawVals(t *rapid.T, b *Binding, o Opts) *ref.Vals {
 		case ref.Len32:
 			n := drawLen8(t, f.Name)
 			if o.BigBodies && rapid.IntRange(0, 9).Draw(t, f.Name+"big") == 0 {
-				n = rapid.SampledFrom([]int{256, 257, 1000, 2048, 65535, 65536}).Draw(t, f.Name+"bigv")
+				n = rapid.SampledFrom([]int{256, 257, 1000, 2048, 65535, 65536, 65537, 1 << 20, 1<<20 + 1, 3 << 20}).Draw(t, f.Name+"bigv")
 			}
 			v.F[f.Name] = uint64(n)
 			v.F[f.Ref] = BodyBytes(t, n, f.Ref)
